@@ -6,6 +6,37 @@ HERE = os.path.dirname(os.path.dirname(os.path.abspath(__file__)))
 A = "Assumptions A1-A8 of DESIGN.md 3.7 (callbacks pure w.r.t. the DBFT instance, single goroutine, Start first, 64-bit int, go/types faithful, no forged own-index payloads)."
 
 CLAIMED = {
+
+ "C01": dict(technique="composite of guard/quorum/arith rules (path-condition algebra, affine normal forms)",
+   text="Decides that the four per-node mechanisms agreement rests on are intact on every path: acceptance behind an M-of-N current-view commit quorum, commit lock on ChangeView sends and view changes, view change behind an M-of-N ChangeView quorum, F=(N-1) div 3 and M=N-F. A structural necessary condition: breaking any of them breaks agreement.",
+   note="Does NOT decide agreement itself (joint histories of several nodes under an adversarial scheduler, quorum intersection across nodes, amnesia restarts): no static argument in reach composes per-node path facts into that. " + A, ref="4/C01"),
+ "C02": dict(technique="guard + quorum-atom analysis, ownership and provenance rules",
+   text="ProcessBlock/ProcessPreBlock have one call site each, proven to be behind an M-of-N quorum counted over current-view entries of the per-validator table with all transactions present; stores into per-validator tables are keyed by the payload's own validator index; PrevHash/BlockIndex come from the ledger callbacks, Timestamp/Nonce/TransactionHashes only from the admitted proposal or the proposal builder; transactions filled in proposal order.",
+   note="Does not decide that Block.Verify is a sound signature check, nor the re-validation of early (pre)commits (see DESIGN.md D6: DEADCALL rule not armed yet), nor callback contracts. " + A, ref="4/C02"),
+ "C03": dict(technique="typed send-site guard analysis (all paths), ownership",
+   text="Every typed broadcast site is behind its 'not said yet' guard on every path from every API entry; own Commit/PreCommit constructed only with an empty own slot; commit tables cleared only by the height reset; ChangeView sends and view changes behind the commit lock; view monotone; epoch fields owned by the epoch writer; recovery builder re-sends stored payloads only.",
+   note="Not decided: identity of a commit after a peer's recovery compaction, uniqueness across process restarts, own-signature verification failure. " + A, ref="4/C03"),
+ "C04": dict(technique="guard + quorum-atom + must-precede (event) analysis",
+   text="Stores of received preparations are behind their admission condition; a PrepareResponse is built only with the proposal recorded, all transactions present, after the block verifier returned true, naming the stored proposal's hash; (pre)commit only behind an M-of-N current-view preparation quorum containing the request; mismatching responses are purged; view change only behind an M-of-N ChangeView quorum.",
+   note="Not decided: that Hash() identifies the proposal, behaviour of VerifyBlock itself, honesty of the counted validators. " + A, ref="4/C04"),
+ "C05": dict(technique="guard analysis with admission facts, field-coverage of the reset, sibling agreement of cache writer/replayer",
+   text="ProcessBlock only while the block-sent flag is unset, flag set after every successful callback and cleared only by the height reset; every effect reachable from the event entries is behind the not-BlockSent admission; every Context field is re-initialised on every view-0 path of the epoch writer except a reasoned carry-over table; every cached payload kind has a bucket that is replayed on every initialisation.",
+   note="Not decided: retention of inboxes of skipped heights (memory only), influence through the application's own callbacks. " + A, ref="4/C05"),
+ "C06": dict(technique="affine/modular normal forms of pure integer functions",
+   text="N, F, M and GetPrimaryIndex are proven to have the normal forms len(Validators), (N-1) div 3, N-F and ((h-v) mod N corrected into [0,N)) in signed arithmetic, for all N>=1, all heights and views on a 64-bit int; purity and single definition of PrimaryIndex. The quorum-intersection and rotation statements are arithmetic consequences of these forms.",
+   note="32-bit builds are out of scope (int(uint32) is lossy there). " + A, ref="4/C06"),
+ "C07": dict(technique="guard + quorum-atom analysis, flag typestate",
+   text="Anti-MEV phase order at every site: pre-commit paths and the optional callbacks only with the extension enabled; Commit under anti-MEV only with own PreCommit, M-of-N PreCommit quorum and processed pre-block; ProcessPreBlock once per height (flag discipline); header only after the pre-block; enabling predicate has the stated form.",
+   note="Not decided: behaviour with failing callbacks beyond 'flag not set', multi-node recovery interplay. " + A, ref="4/C07"),
+ "C08": dict(technique="sibling agreement (cache writer / replayer)",
+   text="Decides only the structural necessary condition A-CACHE: every kind of early payload is kept and replayed on every initialisation and the entered height is removed from the cache.",
+   note="That all nodes decide in view 0 without timeouts depends on timer values and multi-node schedules: not applicable to static analysis and not claimed. " + A, ref="4/C08"),
+ "C10": dict(technique="must-pass-through over enumerated paths with callee summaries, ownership/provenance of the timer epoch",
+   text="Inductive argument with static obligations: epoch fields written only by the epoch writer; Timer.Reset only from one wrapper with the current (BlockIndex, ViewNumber); every initialiser path arms after the epoch write; every admitted timeout path re-arms; durations are non-negative by construction where measured quantities are subtracted.",
+   note="Not decided: adequacy/overflow of durations for large views, mis-configured max<min block time (A10), that the injected timer fires. " + A, ref="4/C10"),
+ "C12": dict(technique="stale-derived-value analysis, must-pass-through, rejection-set check",
+   text="An index derived from MissingTransactions is never used after a call that may rewrite the list; completing a proposal on a backup ends in a PrepareResponse or a ChangeView; OnTransaction rejects deliveries only for the allowed reasons; RequestTx receives the missing list.",
+   note="Not decided: double deliveries, deliveries for a previous view's proposal beyond the rejection set, timing against the view timer. " + A, ref="4/C12"),
  "C13": dict(
    technique="all-paths guard analysis (path-condition algebra + backward demand over the resolved call graph)",
    text="Static all-paths rule G-SILENT: every call of Config.Broadcast, Block.Sign and PreBlock.SetData in package dbft is proven to be behind 'MyIndex>=0 and !Config.WatchOnly()' on every syntactic path from each of the six API entries; quantifies over every schedule/state because it quantifies over every path. This is the strongest decision a static argument gives for the silence clause.",
